@@ -101,6 +101,10 @@ struct World {
     allow_meminit: bool,
     /// sites injected as function-exit instrumentation (a special mode: lowered at encode time)
     special_sites: Vec<u32>,
+    /// ids the API reported for an addition although an entity of that space already held them (before the first encode)
+    reused_ids: Vec<(Sp, u32)>,
+    /// an encode has happened (it may remove deleted entries and renumber: finding F4 is about what follows)
+    encoded: bool,
     /// parsed function imports declared with the non-final type 2 (uid of the import, and the handle that designates it)
     subtyped: Vec<(u32, usize)>,
     /// the global (uid) whose type is a reference to that type
@@ -115,6 +119,11 @@ impl World {
         uid
     }
     fn handle(&mut self, sp: Sp, id: u32, uid: u32, reported: bool) -> usize {
+        // an id the API reports for an addition is new: ids are positions in a vector that only grows before an encode, so an id that
+        // some entity of the space already holds (live or deleted) would make the caller's two ids one
+        if reported && !self.encoded && self.handles.iter().any(|h| h.sp == sp && h.id == id) {
+            self.reused_ids.push((sp, id));
+        }
         self.handles.push(Handle { sp, id, cur: Some(uid), reported });
         self.handles.len() - 1
     }
@@ -780,7 +789,10 @@ fn gen_base(r: &mut Rng, w: &mut World, shape: usize) -> Base {
     if !fh.is_empty() && r.chance(1, 3) {
         let h = *r.pick(&fh);
         let s = w.site(Sp::F, h, Class::Raw);
-        wat.push_str(&format!("  (elem funcref (ref.func {}))\n", w.handles[h].id));
+        // half of these segments are declared with a concrete function reference type (type 1 = `(func)`, which the functions of
+        // type 0 have as well; not the ones declared with the non-final type 2): a typed segment is a reference site like any other
+        let typed = s.id % 2 == 0 && !w.subtyped.iter().any(|(_, y)| *y == h);
+        wat.push_str(&format!("  (elem {} (ref.func {}))\n", if typed { "(ref null 1)" } else { "funcref" }, w.handles[h].id));
         positional.raw.push(s.id);
         raw_tokens.push(w.refstr(&s));
     }
@@ -964,6 +976,8 @@ pub fn run(ctx: &mut Ctx) {
             has_reffunc_global: false,
             allow_meminit: true,
             special_sites: vec![],
+            reused_ids: vec![],
+            encoded: false,
             subtyped: vec![],
             typed_global: None,
         };
@@ -1173,6 +1187,7 @@ pub fn run(ctx: &mut Ctx) {
                         Ret::Encoded(_) => "E".to_string(),
                     });
                     if let Ret::Encoded(b) = ret {
+                        w.encoded = true;
                         if std::env::var("ORCA_DUMP").is_ok() {
                             eprintln!("--- base\n{}\n--- encoded\n{}", base.wat, wasmprinter::print_bytes(&b).unwrap_or_default());
                         }
@@ -1241,6 +1256,9 @@ pub fn run(ctx: &mut Ctx) {
         let mut failures: Vec<(String, String, String)> = vec![]; // (props, sig, detail)
         for d in &l2i_refused {
             failures.push(("C11".into(), "conversion-of-local-function-refused".into(), d.clone()));
+        }
+        for (sp, id) in &w.reused_ids {
+            failures.push((format!("C09,{}", props_of(*sp)), format!("{}-returned-id-already-in-use", sp.ch()), format!("id {id} was reported for an addition while another entity of the space held it")));
         }
         if let Some((tok, p)) = &api_panic {
             let opn = tok.split(':').next().unwrap();
